@@ -106,7 +106,12 @@ def report(chk, recs, verdicts, decks, relevant, nontrivial, clauses='owner,vali
             err = rec['err']
             sig = {'clause': kind, 'errtype': err['type'] if err else None,
                    'where': err['where'] if err else None, 'features': '+'.join(feats)}
+            if rec.get('deckname'):
+                sig['integration_deck'] = rec['deckname']
+            if kind == 'vol_syntax_or_count' and rec.get('file'):
+                sig['none_operand'] = any('BAD' in v['tk'] for v in rec['file']['vols'])
             case = {'text': rec['text'], 'opts': rec.get('opts', []), 'error': err, 'deck': deck,
+                    'integration_deck': rec.get('deckname'),
                     'clauses': clauses,
                     'point2': deck['pts'][k - 1] if k else None, 'cells': [[c['n'], c['imp']] for c in deck['cells']]}
             chk.violation(sig, case)
